@@ -23,7 +23,7 @@ RULE = ('(a) synthetic pairs of force fields: 1-4 residue types, from-blocks of 
         'sorted or shuffled, residue numbers with gaps. (b) charmm peptides (1-6 residues, termini modifications) '
         'through RepairGraph + CanonicalizeModifications and the shipped charmm->martini3001/martini22/elnedyn22 '
         'mappings, checked with invariants only. Non-trivial = >= 2 placements and >= 1 inter-placement input bond. '
-        'distinct = distinct (force fields, molecule) hashes.')
+        'distinct = distinct (force fields, molecule) hashes. Also: two-residue (multi-residue) mappings whose pattern and target block span a bonded pair of residues that have no mapping of their own; atoms renamed upstream that are matched on _old_atomname.')
 ASSUMPTIONS = ['when placements overlap or tie on their lowest key the order/attributes are ambiguous: only counts and the '
                'inconsistent-data warning are checked',
                'no demand on attributes other than atomname, resname, resid, _old_resid, graph, mapping_weights',
